@@ -536,4 +536,86 @@ TwinContract(e) ==
                 IF diff # {} THEN CHOOSE i \in diff : \A k \in diff : i <= k
                 ELSE IF norep # {} THEN CHOOSE i \in norep : TRUE ELSE -1)
 
+\* ------------------------------------------------------------------ C18
+(***************************************************************************)
+(* An optimisation run over a finite-domain constraint system:              *)
+(*  vars[j] = [n, ty, dom] (dom = sequence of constant terms), base = the    *)
+(*  assertions present when the routine was called, goals[k] = [kind, terms, *)
+(*  signed, soft] with kind in min / max / minmax / maxmin / maxsmt,         *)
+(*  solves = the satisfiability queries the routine issued with the oracle's *)
+(*  answers, outcome = what the routine returned, and the assertion stack    *)
+(*  observed before and after.                                               *)
+(***************************************************************************)
+RECURSIVE AllAssignments(_)
+AllAssignments(vs) ==
+    IF vs = <<>> THEN {EmptyMap}
+    ELSE LET v == Head(vs)
+         IN  {MapPut(r, v.n, Eval(v.dom[j], EmptyMap, QDefault)) : r \in AllAssignments(Tail(vs)), j \in 1..Len(v.dom)}
+
+AllTrue(ts, I) == \A j \in 1..Len(ts) : Eval(ts[j], I, QDefault)
+
+Maximising(goal) == goal.kind \in {"max", "maxmin", "maxsmt"}
+\* value of one term as an integer to be ordered (signed goals order bit-vectors as two's complement)
+OrdVal(t, I, signed) == LET v == Eval(t, I, QDefault)
+                        IN  IF TyF(t).k = "BV" /\ signed THEN BVSigned(v, TyF(t).w) ELSE v
+ObjVal(goal, I) ==
+    CASE goal.kind \in {"min", "max"} -> OrdVal(goal.terms[1], I, goal.signed)
+      [] goal.kind = "minmax" -> LET vs == {OrdVal(goal.terms[j], I, goal.signed) : j \in 1..Len(goal.terms)}
+                                 IN  CHOOSE v \in vs : \A u \in vs : u <= v
+      [] goal.kind = "maxmin" -> LET vs == {OrdVal(goal.terms[j], I, goal.signed) : j \in 1..Len(goal.terms)}
+                                 IN  CHOOSE v \in vs : \A u \in vs : v <= u
+      [] goal.kind = "maxsmt" -> SumInts([j \in 1..Len(goal.soft) |->
+                                              IF Eval(goal.soft[j].f, I, QDefault) THEN goal.soft[j].w ELSE 0])
+BetterG(goal, a, b) == IF Maximising(goal) THEN a > b ELSE a < b
+BetterEqG(goal, a, b) == IF Maximising(goal) THEN a >= b ELSE a <= b
+BestOver(goal, S) == LET vs == {ObjVal(goal, I) : I \in S} IN CHOOSE v \in vs : \A u \in vs : BetterEqG(goal, v, u)
+\* the value a returned cost constant denotes, in the order of the goal
+CostVal(goal, c) == LET v == Eval(c, EmptyMap, QDefault)
+                    IN  IF TyF(c).k = "BV" /\ goal.signed THEN BVSigned(v, TyF(c).w) ELSE v
+ModelOf(asg) == [nm \in {asg[j].n : j \in 1..Len(asg)} |->
+                    Eval(asg[CHOOSE j \in 1..Len(asg) : asg[j].n = nm].v, EmptyMap, QDefault)]
+
+OptContract(e) ==
+    LET space == AllAssignments(e.vars)
+        models == {I \in space : AllTrue(e.base, I)}
+        \* (1) the oracle's answers must be legitimate for what the routine asked, else the run is inconclusive
+        badsolve == {k \in 1..Len(e.solves) :
+                        LET sv == e.solves[k]
+                            live == sv.asserts \o sv.assum
+                        IN  IF sv.res = "sat" THEN ~AllTrue(live, ModelOf(sv.model))
+                            ELSE \E I \in space : AllTrue(live, I)}
+        G(k) == e.goals[k]
+        ng == Len(e.goals)
+        out == e.outcome
+        unsat == models = {}
+        \* (2) per mode
+        single_ok(k, r) ==   \* r = [model, cost]
+            /\ AllTrue(e.base, ModelOf(r.model))
+            /\ ObjVal(G(k), ModelOf(r.model)) = CostVal(G(k), r.cost)
+            /\ CostVal(G(k), r.cost) = BestOver(G(k), models)
+        RECURSIVE LexModels(_)
+        LexModels(k) == IF k = 0 THEN models
+                        ELSE LET S == LexModels(k - 1) IN {I \in S : ObjVal(G(k), I) = BestOver(G(k), S)}
+        lex_ok == /\ Len(out.costs) = ng
+                  /\ \A k \in 1..ng : CostVal(G(k), out.costs[k]) = BestOver(G(k), LexModels(k - 1))
+                  /\ AllTrue(e.base, ModelOf(out.model))
+                  /\ \A k \in 1..ng : ObjVal(G(k), ModelOf(out.model)) = CostVal(G(k), out.costs[k])
+        Vec(I) == [k \in 1..ng |-> ObjVal(G(k), I)]
+        Dominates(a, b) == (\A k \in 1..ng : BetterEqG(G(k), a[k], b[k])) /\ (\E k \in 1..ng : BetterG(G(k), a[k], b[k]))
+        front == {Vec(I) : I \in {I \in models : ~\E J \in models : Dominates(Vec(J), Vec(I))}}
+        got == {[k \in 1..ng |-> CostVal(G(k), out.points[j].costs[k])] : j \in 1..Len(out.points)}
+        pareto_ok == /\ got = front /\ Len(out.points) = Cardinality(front)
+                     /\ \A j \in 1..Len(out.points) :
+                           AllTrue(e.base, ModelOf(out.points[j].model)) /\ Vec(ModelOf(out.points[j].model)) \in front
+        result_ok == CASE e.mode = "single" -> IF unsat THEN out.none ELSE ~out.none /\ single_ok(1, out.results[1])
+                       [] e.mode = "boxed" -> IF unsat THEN out.none
+                                              ELSE ~out.none /\ Len(out.results) = ng /\ \A k \in 1..ng : single_ok(k, out.results[k])
+                       [] e.mode = "lex" -> IF unsat THEN out.none ELSE ~out.none /\ lex_ok
+                       [] e.mode = "pareto" -> IF unsat THEN Len(out.points) = 0 ELSE pareto_ok
+    IN  IF e.res # "ok" THEN Verdict(<<"routine_raised">>, <<>>, -1)
+        ELSE IF badsolve # {} THEN Verdict(<<>>, <<"oracle_answer_not_legitimate">>, CHOOSE k \in badsolve : TRUE)
+        ELSE Verdict(Fl("returns_true_optimum", result_ok) \o
+                     Fl("assertion_stack_restored", e.stack_after = e.stack_before /\ e.depth_after = e.depth_before),
+                     <<>>, -1)
+
 =============================================================================
